@@ -99,6 +99,7 @@ def run(ctx) -> None:
     ctx.add_states(st, gen, "TraceC15 judging every run against the progress contract")
     ctx.traces += len(runs_all)
     ctx.extra["max_scan_ops_ratio"] = max((o["scan_ops"] / (40 * (o["len"] + 2) ** 2 + 1000) for o in runs_all), default=0)
+    scanner_model(ctx, texts, rnd)
     for rj in rejects:
         b = int(rj["id"])
         for f in rj["fails"]:
@@ -108,6 +109,38 @@ def run(ctx) -> None:
             # key: the construct left open at the end of the input
             opener = next((x for x in ("/*", "'", "{{", "{", "(", "[") if x in t and (x != "/*" or "*/" not in t.split("/*")[-1])), "other")
             ctx.violation(f"{why}:unterminated {opener}", rj["clause"], {"text": t, "observed": o})
+
+
+def scanner_model(ctx, texts, rnd) -> None:
+    """Design level on the character-level scanner model + conformance of the real scanner with it.
+    MC_Scanner: for every input of <= N characters over three alphabets, no loop spins and every token carries
+    the line/column of its first character; the pinned block-comment loop (CHECKEOF=0) must be refuted.
+    Conformance (diagnostic, R3): token streams / error positions of the real scanner vs the model."""
+    n = 4 if ctx.quick else 5
+    cfg = "INIT Init\nNEXT Next\nCHECK_DEADLOCK FALSE\nINVARIANT Good\n"
+    for fam in ("comments", "operands", "misc"):
+        rs = tlc.run_sharded("MC_Scanner", cfg, tag=f"c15.scanner.{fam}", nshards=8, heap="2g",
+                             env={"MAXLEN": n, "FAMILY": fam, "CHECKEOF": 1}, timeout=7200)
+        ctx.add_tlc(rs, f"MC_Scanner family={fam}: all inputs <= {n} characters, NoSpin + PositionLaw")
+    m = tlc.run("MC_Scanner", cfg, tag="c15.scanner.mutant", allow_violation=True,
+                env={"MAXLEN": 3, "FAMILY": "comments", "CHECKEOF": 0, "SHARD": 0, "NSHARDS": 1})
+    if m.violated != "Good":
+        raise tlc.TLCFailure("spec mutant CHECKEOF=0 (pinned comment loop) was not refuted by MC_Scanner")
+    ctx.note("spec mutant CHECKEOF=0 (pinned block-comment loop) refuted by TLC on the scanner model, as required")
+    sample = [t for t in texts if len(t) <= 60]
+    rnd.shuffle(sample)
+    sample = sample[: (4000 if ctx.quick else 60000)]
+    res = Pool().map("scan_tokens", [{"text": t} for t in sample], timeout=20, batch=200)
+    recs = []
+    for k, (t, o) in enumerate(zip(sample, res)):
+        if o.get("hang") or o.get("driver_error") or o.get("crash"):
+            continue
+        recs.append({"id": str(k), "chars": ["<nul>" if c == "\0" else c for c in t], **o})
+    rejects, st, gen = tlc.judge_traces("TraceScanner", recs, tag="c15.scanner.trace", nshards=16, heap="2g")
+    ctx.add_states(st, gen, "TraceScanner: real token streams vs the scanner model (diagnostic)")
+    ctx.extra["scanner_model_conformance"] = {"inputs": len(recs), "drift": len(rejects)}
+    for rj in rejects[:20]:
+        ctx.drift_note(f"scanner model vs code on {sample[int(rj['id'])]!r}: {rj['clause'][:200]}")
 
 
 def replay(ctx, data) -> int:
